@@ -1,10 +1,13 @@
 """C05 -- each column type stores one normal form on every write path."""
 import csv
+import json
 import math
 import os
 import shutil
 import tempfile
 import warnings
+from decimal import Decimal
+from fractions import Fraction
 
 import numpy as np
 
@@ -20,6 +23,18 @@ PATHS = ['WholeScalar', 'WholeSeq', 'CellInt', 'SliceScalar', 'SliceSeq', 'Index
 # other iterables as values go through the same element-wise branch as lists: the L1 path they are compared with
 PROXY = {'WholeTuple': 'WholeSeq', 'WholeGen': 'WholeSeq', 'SliceGen': 'SliceSeq', 'IndexListTuple': 'IndexList',
          'SelectionGen': 'IndexList'}
+
+
+def json_key(x):
+    return json.dumps(x, sort_keys=True, ensure_ascii=True)
+
+
+def safe_json(v):
+    """pyobs.jsonable for whatever a column hands out (never raises)"""
+    try:
+        return pyobs.jsonable(v)
+    except Exception:       # noqa: BLE001
+        return {'object': type(v).__name__}
 
 
 def work_dir():
@@ -288,6 +303,141 @@ EXT_PATHS = ['WholeScalar', 'WholeSeq', 'CellInt', 'SliceSeq', 'Selection', 'Row
              'CsvRead', 'FromCol:KMixed']
 
 
+# ---- (8) HISTORY: the conversion is a function of the assigned value alone ------------------------------------
+# Every judged write is preceded, in the same process, by writes (to the same column / to other columns of the same
+# table / to columns of each type of another table) of values that compare (and hash) EQUAL to the judged value, or
+# share its text, but are of another type or of another validity class.  The judged write must have the verdict and
+# the stored value of the same write in isolation (a memo keyed by equality, by str() or by float() of the value, an
+# exception remembered for an equal value, ... would show here).  The history is part of the input, so a replay in a
+# fresh process repeats it.  Path = 'Hist/<class>/<scope>/<form of the judged write>'.
+class EqObj(object):
+    """an unsupported object that compares and hashes equal to a supported value"""
+
+    def __init__(self, x):
+        self.x = x
+
+    def __eq__(self, other):
+        return self.x == (other.x if isinstance(other, EqObj) else other)
+
+    def __ne__(self, other):
+        return not self.__eq__(other)
+
+    def __hash__(self):
+        return hash(self.x)
+
+    def __repr__(self):
+        return 'EqObj(%r)' % (self.x,)
+
+
+HIST_SCOPES = ['same', 'sibling', 'other']
+HIST_FORMS = ['CellInt', 'WholeScalar', 'WholeSeq', 'SliceSeq', 'IndexList', 'Selection', 'RowAttr', 'CtorKeyword',
+              'ConcatDict', 'ConcatDM', 'SliceScalar', 'WholeTuple']
+
+
+def hist_classes():
+    big = 2 ** 53
+    nan, inf = float('nan'), float('inf')
+    return [
+        ('one', [1, 1.0, True, np.bool_(True), complex(1, 0), np.float64(1), np.float32(1), np.int64(1), np.uint8(1),
+                 Fraction(1), Decimal(1), '1', '1.0', ' 1 ', np.complex128(1), EqObj(1), np.str_('1')]),
+        ('zero', [0, 0.0, False, -0.0, complex(0, 0), np.bool_(False), np.float64(-0.0), np.int64(0), '0', '-0.0',
+                  Fraction(0), Decimal('-0'), EqObj(0), EqObj(0.0), complex(-0.0, 0.0)]),
+        ('big', [big, float(big), big + 1, np.int64(big + 1), np.int64(big), np.float64(big), '9007199254740993',
+                 '9007199254740992', '9007199254740992.0', Fraction(big + 1), Decimal(big + 1), complex(big, 0),
+                 EqObj(big + 1), EqObj(float(big))]),
+        ('frac', [2.5, np.float64(2.5), np.float32(2.5), complex(2.5, 0), Fraction(5, 2), Decimal('2.5'), '2.5',
+                  ' 2.50 ', EqObj(2.5), np.complex128(2.5)]),
+        ('tenth', [0.1, np.float32(0.1), np.float64(0.1), '0.1', Decimal('0.1'), Fraction(1, 10),
+                   float(np.float32(0.1)), complex(0.1, 0), EqObj(0.1)]),
+        ('text', ['x', np.str_('x'), EqObj('x'), 'True', True, 'None', None, 'False', False, '', EqObj('')]),
+        ('nan', [nan, np.float64('nan'), np.float32('nan'), 'nan', 'NaN', Decimal('nan'), complex(nan, 0), None, '',
+                 inf, 'inf', np.float64('inf'), Decimal('Infinity'), complex(inf, 0), EqObj(inf)]),
+    ]
+
+
+def hist_unsupported(kind, v):
+    """v is of a type the column of this kind must reject with TypeError (although it equals a supported value)"""
+    if isinstance(v, EqObj) or type(v) is complex:
+        return True
+    # an IntColumn takes what int() takes: np.bool_ and np.complex128 are not judged there
+    return isinstance(v, (np.bool_, np.complexfloating)) and kind != 'KInt'
+
+
+def hist_judgeable(kind, v):
+    """the L0 spec has a class for v (Fraction, Decimal, np.str_ serve as history only)"""
+    if v is None or type(v) in (bool, int, float, str) or isinstance(v, (np.integer, np.floating)):
+        return True
+    return hist_unsupported(kind, v)
+
+
+# ---- (9) NEIGHBOURS: on every sequence-valued path the value stored for an element is a function of that element ---
+# A sequence of precision-sensitive elements (ints and integer strings beyond 2^53, 17-digit floats and their
+# spellings) with a context inserted (a fraction, a fractional / exponent spelling, text, None, NaN, '', bools, ...)
+# is written in one go; EVERY element is read back and judged by the normal form of that element alone.
+# Path = 'Seq/<form>'.  form -> the L1 path it is compared with
+SEQ_FORMS = {'WholeSeq': 'WholeSeq', 'SliceAll': 'SliceSeq', 'IndexListPerm': 'IndexList', 'Selection': 'IndexList',
+             'CtorKw': 'WholeSeq', 'ConcatDict': 'ConcatDict', 'ConcatDM': 'ConcatDM', 'CsvRead': 'CsvRead',
+             'WholeTuple': 'WholeSeq', 'WholeGen': 'WholeSeq', 'SetItem': 'WholeSeq', 'SlicePart': 'SliceSeq',
+             'IndexList': 'IndexList', 'SelectionPart': 'IndexList', 'ConcatDictTyped': 'ConcatDict',
+             'CsvReadLast': 'CsvRead'}
+SEQ_FORMS_CORE = ['WholeSeq', 'SliceAll', 'IndexListPerm', 'Selection', 'CtorKw', 'ConcatDict', 'ConcatDM', 'CsvRead']
+
+
+def seq_chunks():
+    """type-homogeneous chunks (a conversion of the whole sequence in one go would infer ONE type for them) and a mixed one"""
+    return [
+        # Python numbers only
+        [2 ** 53 + 1, -(2 ** 62) - 3, 0.30000000000000004, 2 ** 63 - 1, 1 / 3.0, 1e22],
+        # text only
+        ['9007199254740993', ' -9223372036854775807 ', '0.30000000000000004', '1700000000000000001',
+         '9_007_199_254_740_993', '1e22', '4.35'],
+        # ints only
+        [2 ** 53 + 1, -(2 ** 62) - 3, 2 ** 63 - 1, 7, -(2 ** 53) - 1],
+        # mixed
+        [np.int64(2 ** 53 + 1), '9007199254740993', 123456789.12345679, 2 ** 53 - 1, np.float64(0.1) * 3,
+         9007199254740994.0, '0.1'],
+    ]
+
+
+def seq_contexts():
+    nan = float('nan')
+    singles = [2.5, '2.5', 'x', None, nan, 'nan', '', 1.0, '1e3', '3.0', True, 0, -0.0, np.float32(1.5), 'inf',
+               float('inf'), ' 7 ', np.float64(0.5), '-0.75']
+    return [[]] + [[x] for x in singles] + [[2.5, 'x'], [None, nan], ['2.5', '1e3'], ['x', None], [0.5, '', 7],
+                                            ['abc', '2.5', None, nan]]
+
+
+def seq_text(e):
+    """the text of a CSV cell that spells e (None has no spelling)"""
+    if e is None:
+        return None
+    if type(e) is str:
+        return e
+    if isinstance(e, float):            # float and np.float64: the shortest spelling that reads back exactly
+        return repr(float(e))
+    return str(e)
+
+
+def seq_valid(kind, e):
+    """the column type has a value for e (otherwise the whole sequence is rejected, by design)"""
+    if kind != 'KInt':
+        return True
+    if e is None:
+        return False
+    if type(e) is str:
+        try:
+            int(e)
+            return True
+        except ValueError:
+            try:
+                return math.isfinite(float(e))
+            except ValueError:
+                return False
+    if isinstance(e, (float, np.floating)):
+        return math.isfinite(float(e))
+    return True
+
+
 class C05:
     id = 'C05'
     props_file = 'theories/Props/C05.v'
@@ -342,6 +492,26 @@ class C05:
             'neighbours are numeric cells with whitespace and empty cells, which are checked too) x 5 dialects (, ; tab | with '
             'quote characters " and \') x 3 writers (minimal quoting, quote all, CRLF line ends) (quick: full alphabet on the '
             'comma dialect, 9 values elsewhere), judged like a cell write of the same text. '
+            '(8) HISTORY: 7 classes of values that are equal (== and hash) or share their text but differ in type or validity '
+            '(around 1: 1, 1.0, True, np.bool_(True), complex(1, 0), np.float64/float32/int64/uint8 1, Fraction(1), Decimal(1), '
+            '"1", "1.0", " 1 ", np.complex128(1), an object whose __eq__/__hash__ are those of 1, np.str_("1"); likewise around '
+            '0 / -0.0; 2^53 / float(2^53) / 2^53+1 and their spellings; 2.5; 0.1 / np.float32(0.1); "x" / np.str_("x") / "True" / '
+            'True / "None" / None / ""; nan / inf spellings incl. Decimal and complex); every classifiable member is judged '
+            '(a) after ALL other members of its class and (b) after each single other member (ordered pairs, both orders), the '
+            'history written first in the same process to the same column / sibling columns of each type / columns of each type '
+            'of another table (cell, whole sequence, selection, slice), the judged write through 12 forms + CSV (unsupported-'
+            'but-equal values: every form; others: rotating); judged like the single write (oracle and L1 model), i.e. '
+            'complex, np.bool_ and foreign equal-comparing objects must raise TypeError whatever was converted before; the '
+            'history is part of the input (a replay repeats it) and is never shrunk. '
+            '(9) NEIGHBOURS: sequences made of 3 chunks of precision-sensitive elements (ints, np.int64 and integer strings '
+            'beyond 2^53 up to +-(2^63-1), 17-digit floats and their spellings, 1e22, underscores, whitespace) with one of 26 '
+            'contexts inserted at rotating positions (nothing, 2.5, "2.5", "x", None, nan, "nan", "", 1.0, "1e3", "3.0", True, 0, '
+            '-0.0, np.float32(1.5), inf, " 7 ", mixtures), written in ONE go through 16 sequence-valued forms (list, tuple, '
+            'generator, dm[name], col[:], col[a:b], index list in order / permuted, selection whole / part, constructor '
+            'keyword, a << dict, a << table built from a dict, a << table, CSV column alone / last of three columns); EVERY '
+            'element is read back and judged by the normal form of that element alone (conjunction of per-element oracle / '
+            'model terms); elements the column type has no value for are left out for that type; failing sequences are '
+            'shrunk by dropping elements. '
             'thorough adds random ints/floats/strings, 6000 random (state, form, source, value) combinations and 8000 random '
             'two-step sequences. In EVERY case the cell is read back through col[i], list(col)[i], row.name, row[name], '
             'col[i-n], row[int] and iteration over the Row (all must agree and be plain int/float/str/None). '
@@ -365,7 +535,10 @@ class C05:
     ]
     assumptions = [
         'fastnumbers is not installed (checked at run time): _checktype_regular is the live variant',
-        'byte strings, int64 overflow and complex numbers are outside the claim',
+        'byte strings and int64 overflow are outside the claim; complex numbers, np.bool_ and foreign objects that compare '
+        'equal to a number are unsupported types (TypeError) for Mixed/FloatColumn; an IntColumn takes what int() takes '
+        '(np.bool_, np.complex128 are not judged there); Fraction, Decimal and np.str_ have no class in the L0 spec and '
+        'serve as history values only',
         'which exit of _tosequence / _setslicekey a write takes is decided by regenerated kernels (Gen/KC05Paths.v); what '
         'each exit does (NumPy buffer casts, list(value), the loops) is modelled by hand in Model/Store.v, '
         'Model/C05Paths.v over pinned source and tied by the correspondence',
@@ -1093,6 +1266,236 @@ class C05:
                      pv.split(' ')[0].strip('()')],
         }
 
+    # ---- (8) history: equal values of another type / validity class written first ------------------------------
+    def _rerun_hist(self, inp):
+        from datamatrix import DataMatrix
+        kind, v = inp['kind'], self._decode(inp['value'])
+        hist = [self._decode(h) for h in inp['history']]
+        _tag, cls, scope, form = inp['path'].split('/')
+        if not hist_judgeable(kind, v) or not self.applicable(kind, form, v):
+            return None
+        ct = coltype(kind)
+        pyfail = None
+
+        def swallow(thunk):
+            try:
+                thunk()
+            except Exception:       # noqa: BLE001  (a history write may be rejected; only the judged write is judged)
+                pass
+        with warnings.catch_warnings():
+            warnings.simplefilter('ignore')
+            try:
+                dm = DataMatrix(length=3)
+                dm.k = 0, 1, 2
+                dm.c = ct
+                if scope == 'same':
+                    targets = [(dm, 'c')]
+                else:
+                    t = dm if scope == 'sibling' else DataMatrix(length=3)
+                    if scope == 'other':
+                        t.k = 0, 1, 2
+                    t.h0, t.h1, t.h2 = coltype('KMixed'), coltype('KFloat'), coltype('KInt')
+                    targets = [(t, 'h0'), (t, 'h1'), (t, 'h2')]
+                prep = None
+            except Exception as e:      # noqa: BLE001  (only operations that must succeed)
+                prep = 'building the tables raised %s' % pyobs.exn_name(e)
+            if prep is None:
+                for j, h in enumerate(hist):
+                    for t, name in targets:
+                        swallow(lambda: t[name].__setitem__(0, h))
+                        if j % 3 == 0:
+                            swallow(lambda: t.__setitem__(name, [h, 0, h]))
+                        elif j % 3 == 1:
+                            swallow(lambda: t[name].__setitem__(t.k == 2, h))
+                        else:
+                            swallow(lambda: t[name].__setitem__(slice(0, 1), (h,)))
+                try:
+                    if type(dm.c) is not ct or len(dm) != 3:
+                        prep = 'after the history writes column c is a %s of length %d' % (type(dm.c).__name__, len(dm))
+                except Exception as e:      # noqa: BLE001
+                    prep = 'after the history writes the table raised %s' % pyobs.exn_name(e)
+            if prep is not None:
+                out = ('typefail', prep)
+            else:
+                try:
+                    st, res = self._write(kind, form, v, dm0=dm)
+                    out = ('ok', res) if st == 'ok' else ('typefail', res)
+                except Exception as e:      # noqa: BLE001
+                    out = ('exn', pyobs.exn_name(e))
+        if out[0] == 'exn':
+            obs_lit = '(Raise %s)' % out[1]
+            observed = {'raises': out[1]}
+        elif out[0] == 'typefail':
+            obs_lit = '(Raise OtherError)'
+            observed = {'typefail': out[1]}
+            pyfail = out[1]
+        else:
+            rs = out[1]
+            lits = [pyobs.val(r) for r in rs]
+            observed = {'read_back': safe_json(rs[0]), 'type': type(rs[0]).__name__}
+            if any(l is None for l in lits):
+                pyfail = 'read-back is not a plain int/float/str/None: %s' % describe_reads(BASIC_READS, rs)
+                obs_lit = '(Raise OtherError)'
+            else:
+                if len(set(lits)) != 1:
+                    pyfail = 'the ways of reading the cell back disagree: %s' % describe_reads(BASIC_READS, rs)
+                obs_lit = '(Ok %s)' % lits[0]
+        pv = pyobs.pyv(v)
+        return {
+            'input': inp, 'observed': observed, 'pyfail': pyfail,
+            'oracle': '(oracle %s %s %s)' % (kind, pv, obs_lit),
+            'model': '(model_agrees_k %s %s %s %s)' % (PROXY.get(form, form), kind, pv, obs_lit),
+            'nontrivial': True,
+            'sig': '%s|%s|%s|%s' % (kind, inp['path'], json_key(inp['value']), json_key(inp['history'])),
+            'tags': [kind, 'Hist', 'class:' + cls, 'scope:' + scope, form, 'hist:%s' % ('all' if len(hist) > 1 else 'one'),
+                     'judged:' + ('unsupported' if hist_unsupported(kind, v) else 'supported'),
+                     pv.split(' ')[0].strip('()')],
+        }
+
+    # ---- (9) neighbours: every element of a sequence is stored like that element alone ----------------------------
+    def _write_seq(self, kind, form, seq):
+        """-> (table, positions of the elements)"""
+        from datamatrix import DataMatrix, io
+        ct = coltype(kind)
+        n = len(seq)
+
+        def table(m):
+            dm = DataMatrix(length=m)
+            dm.k = list(range(m))
+            dm.c = ct
+            return dm
+        pos = list(range(n))
+        if form == 'WholeSeq':
+            dm = table(n)
+            dm.c = list(seq)
+        elif form == 'WholeTuple':
+            dm = table(n)
+            dm.c = tuple(seq)
+        elif form == 'WholeGen':
+            dm = table(n)
+            dm.c = (x for x in seq)
+        elif form == 'SetItem':
+            dm = table(n)
+            dm['c'] = list(seq)
+        elif form == 'SliceAll':
+            dm = table(n)
+            dm.c[:] = list(seq)
+        elif form == 'SlicePart':
+            dm = table(n + 2)
+            dm.c[1:n + 1] = list(seq)
+            pos = [i + 1 for i in range(n)]
+        elif form == 'IndexList':
+            dm = table(n)
+            dm.c[list(range(n))] = list(seq)
+        elif form == 'IndexListPerm':
+            dm = table(n + 1)
+            pos = [(3 * i + 1) % (n + 1) for i in range(n)] if (n + 1) % 3 else list(range(n, 0, -1))
+            dm.c[list(pos)] = list(seq)
+        elif form == 'Selection':
+            dm = table(n)
+            dm.c[dm.k >= 0] = list(seq)
+        elif form == 'SelectionPart':
+            dm = table(n + 2)
+            dm.c[(dm.k >= 1) & (dm.k <= n)] = list(seq)
+            pos = [i + 1 for i in range(n)]
+        elif form == 'CtorKw':
+            dm = DataMatrix(length=n, default_col_type=ct, c=list(seq))
+        elif form == 'ConcatDict' and kind == 'KMixed':
+            a = DataMatrix(length=1)
+            a.c = ct
+            dm = a << {'c': list(seq)}
+            pos = [i + 1 for i in range(n)]
+        elif form in ('ConcatDict', 'ConcatDictTyped'):
+            # a dict operand becomes a table of MixedColumns (a << dict raises 'Non-matching type' for a numeric
+            # column, by design): for the numeric types the operand is built like readtxt builds it
+            a = DataMatrix(length=1, default_col_type=ct)
+            a.c = ct
+            dm = a << DataMatrix(default_col_type=ct)._fromdict({'c': list(seq)})
+            pos = [i + 1 for i in range(n)]
+        elif form == 'ConcatDM':
+            a = DataMatrix(length=1)
+            a.c = ct
+            b = DataMatrix(length=n)
+            b.c = ct
+            b.c = list(seq)
+            dm = a << b
+            pos = [i + 1 for i in range(n)]
+        elif form in ('CsvRead', 'CsvReadLast'):
+            os.makedirs(self.tmpdir, exist_ok=True)
+            fd, fn = tempfile.mkstemp(suffix='.csv', dir=self.tmpdir)
+            with os.fdopen(fd, 'w', encoding='utf-8', newline='') as f:
+                w = csv.writer(f, lineterminator='\n')
+                w.writerow(['c'] if form == 'CsvRead' else ['a', 'b', 'c'])
+                for i, x in enumerate(seq):
+                    # neighbouring columns: numbers and (where the column type has a value for it) text
+                    w.writerow([x] if form == 'CsvRead' else [str(i), ('%d' if kind == 'KInt' else 'x%d') % i, x])
+            try:
+                dm = io.readtxt(fn, default_col_type=ct)
+            finally:
+                os.unlink(fn)
+        else:
+            raise AssertionError(form)
+        return dm, pos
+
+    def _rerun_seq(self, inp):
+        kind = inp['kind']
+        seq = [self._decode(d) for d in inp['values']]
+        _tag, form = inp['path'].split('/')
+        if form.startswith('CsvRead') and not all(type(e) is str and e != '' and '\r' not in e for e in seq):
+            return None
+        if not seq or not all(seq_valid(kind, e) and self.applicable(kind, 'WholeSeq', e) for e in seq):
+            return None
+        ct = coltype(kind)
+        pyfail = None
+        with warnings.catch_warnings():
+            warnings.simplefilter('ignore')
+            try:
+                dm, pos = self._write_seq(kind, form, seq)
+                if type(dm.c) is not ct or len(dm) <= max(pos):
+                    out = ('typefail', 'the write gave a %s of length %d' % (type(dm.c).__name__, len(dm)))
+                else:
+                    out = ('ok', [basic_reads(dm, p) for p in pos])
+            except AssertionError:
+                raise
+            except Exception as e:      # noqa: BLE001
+                out = ('exn', pyobs.exn_name(e))
+        obs_lits = []
+        if out[0] == 'exn':
+            obs_lits = ['(Raise %s)' % out[1]] * len(seq)
+            observed = {'raises': out[1]}
+        elif out[0] == 'typefail':
+            obs_lits = ['(Raise OtherError)'] * len(seq)
+            observed = {'typefail': out[1]}
+            pyfail = out[1]
+        else:
+            observed = {'read_back': [safe_json(rs[0]) for rs in out[1]],
+                        'types': [type(rs[0]).__name__ for rs in out[1]]}
+            for i, rs in enumerate(out[1]):
+                lits = [pyobs.val(r) for r in rs]
+                if any(l is None for l in lits):
+                    pyfail = pyfail or 'element %d: read-back is not a plain int/float/str/None: %s' % (
+                        i, describe_reads(BASIC_READS, rs))
+                    obs_lits.append('(Raise OtherError)')
+                else:
+                    if len(set(lits)) != 1:
+                        pyfail = pyfail or 'element %d: the ways of reading the cell back disagree: %s' % (
+                            i, describe_reads(BASIC_READS, rs))
+                    obs_lits.append('(Ok %s)' % lits[0])
+        pvs = [pyobs.pyv(e) for e in seq]
+        o_expr, m_expr = 'true', 'true'
+        for pv, ob in reversed(list(zip(pvs, obs_lits))):
+            o_expr = '(andb (oracle %s %s %s) %s)' % (kind, pv, ob, o_expr)
+            m_expr = '(andb (model_agrees_k %s %s %s %s) %s)' % (SEQ_FORMS[form], kind, pv, ob, m_expr)
+        return {
+            'input': inp, 'observed': observed, 'pyfail': pyfail,
+            'oracle': o_expr,
+            'model': m_expr,
+            'nontrivial': True,
+            'sig': '%s|%s|%s' % (kind, inp['path'], json_key(inp['values'])),
+            'tags': [kind, 'Seq', 'sform:' + form, 'len:%d' % len(seq)] + sorted(set(
+                'elem:' + pv.split(' ')[0].strip('()') for pv in pvs)),
+        }
+
     def applicable(self, kind, path, v):
         if path.endswith('Np') and not (type(v) in (int, float) and abs(v) < 2 ** 63 if type(v) is int else type(v) is float):
             return False
@@ -1140,6 +1543,10 @@ class C05:
             return self._rerun_csv(inp)
         if inp['path'].startswith('Zero/'):
             return self._rerun_zero(inp)
+        if inp['path'].startswith('Hist/'):
+            return self._rerun_hist(inp)
+        if inp['path'].startswith('Seq/'):
+            return self._rerun_seq(inp)
         kind, path, v = inp['kind'], inp['path'], self._decode(inp['value'])
         with warnings.catch_warnings():
             warnings.simplefilter('ignore')
@@ -1203,6 +1610,20 @@ class C05:
     def _encode(self, v):
         if isinstance(v, Obj):
             return {'t': 'obj'}
+        if isinstance(v, EqObj):
+            return {'t': 'eqobj', 'v': self._encode(v.x)}
+        if isinstance(v, np.bool_):
+            return {'t': 'npbool', 'v': bool(v)}
+        if isinstance(v, np.complexfloating):
+            return {'t': 'npcomplex', 'dtype': v.dtype.name, 're': float(v.real).hex(), 'im': float(v.imag).hex()}
+        if type(v) is complex:
+            return {'t': 'complex', 're': v.real.hex(), 'im': v.imag.hex()}
+        if isinstance(v, np.str_):
+            return {'t': 'npstr', 'v': str(v)}
+        if isinstance(v, Fraction):
+            return {'t': 'fraction', 'n': str(v.numerator), 'd': str(v.denominator)}
+        if isinstance(v, Decimal):
+            return {'t': 'decimal', 'v': str(v)}
         if v is None:
             return {'t': 'none'}
         if type(v) is bool:
@@ -1236,6 +1657,20 @@ class C05:
         if t == 'np':
             ty = getattr(np, d['dtype'])
             return ty(float.fromhex(d['v'])) if d['dtype'].startswith('float') else ty(int(d['v']))
+        if t == 'eqobj':
+            return EqObj(self._decode(d['v']))
+        if t == 'npbool':
+            return np.bool_(d['v'])
+        if t == 'npcomplex':
+            return getattr(np, d['dtype'])(complex(float.fromhex(d['re']), float.fromhex(d['im'])))
+        if t == 'complex':
+            return complex(float.fromhex(d['re']), float.fromhex(d['im']))
+        if t == 'npstr':
+            return np.str_(d['v'])
+        if t == 'fraction':
+            return Fraction(int(d['n']), int(d['d']))
+        if t == 'decimal':
+            return Decimal(d['v'])
         raise AssertionError(d)
 
     def generate(self, rng, tier):
@@ -1422,15 +1857,128 @@ class C05:
                 c = self.rerun(inp)
                 if c is not None:
                     cases.append(c)
+        cases.extend(self._gen_hist(rng, tier))
+        cases.extend(self._gen_seq(rng, tier))
         shutil.rmtree(self.tmpdir, ignore_errors=True)
         self.tmpdir = os.path.dirname(self.tmpdir)       # later re-runs (shrinking, search, replay) use .work itself
         return cases
 
+    def _gen_hist(self, rng, tier):
+        cases = []
+        # (8) history: equal values of another type / validity class written first.  (a) the whole class as history
+        # (these come first: their replay does not depend on what else the process converted before);
+        # (b) ordered pairs (one history value, then the judged value), both orders
+        hist = []
+        combos = [(sc, fm) for fm in HIST_FORMS for sc in HIST_SCOPES]
+        n = 0
+        for cls, members in hist_classes():
+            for kind in KINDS:
+                for i, v in enumerate(members):
+                    if not hist_judgeable(kind, v):
+                        continue
+                    others = members[:i] + members[i + 1:]
+                    if type(v) is str:
+                        forms = ['CsvRead']
+                    else:
+                        forms = []
+                    if tier == 'thorough':
+                        pick = combos
+                    elif hist_unsupported(kind, v):
+                        pick = [(HIST_SCOPES[(n + j) % 3], fm) for j, fm in enumerate(HIST_FORMS)]
+                    else:
+                        pick = [combos[(5 * n + 13 * j) % len(combos)] for j in range(3)]
+                    n += 1
+                    for sc, fm in pick:
+                        hist.append((cls, kind, sc, fm, v, others))
+                    for fm in forms:
+                        hist.append((cls, kind, HIST_SCOPES[n % 3], fm, v, others))
+        for cls, members in hist_classes():
+            for i, v in enumerate(members):
+                for j, h in enumerate(members):
+                    if i == j:
+                        continue
+                    for ki, kind in enumerate(KINDS):
+                        if not hist_judgeable(kind, v):
+                            continue
+                        cross = hist_unsupported(kind, v) != hist_unsupported(kind, h)
+                        if tier != 'thorough' and not cross and (i + j) % 3 != ki:
+                            continue        # same validity class: one column type per pair
+                        if tier != 'thorough' and cross and not hist_unsupported(kind, v) and (i + 2 * j) % 3 == ki:
+                            continue
+                        n += 1
+                        sc, fm = combos[(7 * n) % len(combos)]
+                        hist.append((cls, kind, sc, fm, v, [h]))
+        seen = set()
+        for cls, kind, sc, fm, v, hs in hist:
+            inp = {'kind': kind, 'path': 'Hist/%s/%s/%s' % (cls, sc, fm), 'value': self._encode(v),
+                   'history': [self._encode(h) for h in hs]}
+            key = json_key(inp)
+            if key in seen:
+                continue
+            seen.add(key)
+            c = self.rerun(inp)
+            if c is not None:
+                cases.append(c)
+        return cases
+
+    def _gen_seq(self, rng, tier):
+        cases = []
+        # (9) neighbours: sequences of precision-sensitive elements with a context inserted, on every
+        # sequence-valued path; every element is judged on its own
+        chunks = seq_chunks()
+        seqs = []
+        for fi, form in enumerate(SEQ_FORMS):
+            for ci, ctx in enumerate(seq_contexts()):
+                if tier != 'thorough' and form not in SEQ_FORMS_CORE and (ci + fi) % 4:
+                    continue
+                for chunk in (chunks if tier == 'thorough' else [chunks[(ci + fi) % len(chunks)]]):
+                    at = (ci + 2 * fi) % (len(chunk) + 1)
+                    seqs.append((form, chunk[:at] + ctx + chunk[at:]))
+                    if ctx and (ci + fi) % 5 == 0:
+                        seqs.append((form, ctx + chunk[:2]))
+                        seqs.append((form, chunk[-2:] + ctx))
+        if tier == 'thorough':
+            pool = [e for ch in chunks for e in ch] + [e for cx in seq_contexts() for e in cx]
+            for _ in range(3000):
+                seqs.append((rng.choice(sorted(SEQ_FORMS)), [rng.choice(pool) for _ in range(rng.randint(2, 7))]))
+        seen = set()
+        for kind in KINDS:
+            for form, seq in seqs:
+                seq = [e for e in seq if seq_valid(kind, e) and self.applicable(kind, 'WholeSeq', e)]
+                if form.startswith('CsvRead'):
+                    seq = [seq_text(e) for e in seq if seq_text(e) not in (None, '')]
+                    seq = [e for e in seq if seq_valid(kind, e) and self.applicable(kind, 'CsvRead', e)]
+                if len(seq) < 2:
+                    continue
+                inp = {'kind': kind, 'path': 'Seq/%s' % form, 'values': [self._encode(e) for e in seq]}
+                key = json_key(inp)
+                if key in seen:
+                    continue
+                seen.add(key)
+                c = self.rerun(inp)
+                if c is not None:
+                    cases.append(c)
+        return cases
+
     def shrink_candidates(self, inp):
-        return []
+        # a sequence (family 9) is shortened; the history of family 8 is NOT (what the process converted before is
+        # part of the state there: a shortened history could fail in this process and pass in a replay)
+        vals = inp.get('values')
+        if not vals or len(vals) <= 2:
+            return []
+        out = []
+        if len(vals) >= 4:
+            h = len(vals) // 2
+            out += [vals[:h], vals[h:]]
+        out += [vals[:i] + vals[i + 1:] for i in range(len(vals))]
+        return [dict(inp, values=v) for v in out]
 
     def key(self, case):
         i = case['input']
+        if 'values' in i:
+            return 'store kind=%s path=%s values=%s' % (i['kind'], i['path'], i['values'])
+        if 'history' in i:
+            return 'store kind=%s path=%s value=%s after=%s' % (i['kind'], i['path'], i['value'], i['history'])
         return 'store kind=%s path=%s value=%s' % (i['kind'], i['path'], i['value'])
 
     tmpdir = None
